@@ -54,11 +54,21 @@ VALUES = ['0', '1', '-1', '5', '3', '5.0', '5.0004', '5.002', '4.9995', '5000000
           "'a'", "'A'", "'a.'", "'Hello, World!'", "'hello world'", "'hello  world'", "'abc'", "'b'", "''", "'5'",
           '[]', '[1, 2]', '[1, 2.0004]', "['a', 'B']", "['A', 'b']", '[[1], [2]]', '[[1], [2.0005]]', '(1, 2)', "(1, 'a')", '()',
           "{'a': 1}", "{'a': 1.0004}", '{}', '{1, 2}', 'set()', "{'k': [1, {'z': 2.0}]}", "{'k': [1, {'z': 2.0003}]}",
-          '(1+0j)', "[1, 'a', None]", 'frozenset({1})', '{3}', "float('nan')", "float('inf')"]
+          '(1+0j)', "[1, 'a', None]", 'frozenset({1})', '{3}', "float('nan')", "float('inf')", "-float('inf')",
+          "{'A': 1}", "{1.0: 'x'}", "{1.0004: 'x'}", '{1.0, 1.0004}', '{1.0, 2.0}', "b'a'", "b'b'", 'Rec(1)', 'Rec(2)', 'Rec(1.0004)', 'Rec(1.0)']
 IDENTITY_STABLE = {'None', 'True', 'False', '0', '1', '-1', '5', '3'}
 LENGTHS = ['0', '1', '2', '3', "'a'", 'None', '2.0']
 CLASSES = ['int', 'float', 'str', 'list', 'tuple', 'dict', 'set', 'bool', 'type(None)', 'object', '(list, tuple)']
 REGEXES = ["'a'", "'^h'", "'l+o'", "'['", "'\\\\d+'", "'World'", "''"]
+import dataclasses as _dc
+
+
+@_dc.dataclass
+class Rec:
+    """An instructor-side dataclass used as an operand (instances are handed to student code as they are)."""
+    a: float
+
+
 ERR = '!error'
 # other operands that are errors: a call that ended in sys.exit(), an exception object that never went through the sandbox
 ERR_EXIT, ERR_RAW = '!exit', '!raw-exception'
@@ -135,7 +145,7 @@ def make_operand(src, wrapped, sb):
         return r, None, True
     if src == ERR_RAW:
         return ValueError('an exception object as operand'), None, True
-    raw = eval(src, {'__builtins__': __builtins__})
+    raw = eval(src, {'__builtins__': __builtins__, 'Rec': Rec})
     if not wrapped:
         return raw, raw, False
     r = sb.call('ident', raw)
@@ -191,6 +201,8 @@ def ref_equal(a, b, exact, delta=DELTA):
     num = (int, float)
     if isinstance(a, num) and isinstance(b, num):
         if isinstance(a, float) or isinstance(b, float):
+            if a == b:
+                return True          # also two infinities of the same sign
             d = abs(a - b)
             if d != d:
                 return None
@@ -211,19 +223,44 @@ def ref_equal(a, b, exact, delta=DELTA):
             return False
         return tri_and(ref_equal(x, y, exact, delta) for x, y in zip(a, b))
     if type(a) in (set, frozenset) and type(a) is type(b):
-        if len(a) != len(b):
-            return False
         if a == b:
             return True
-        return None      # element-wise tolerant matching: left to the metamorphic checks
+        # every element needs a partner on the other side, in both directions (pedal's documented leniency applies element-wise)
+        return tri_and([_has_partner(x, b, exact, delta) for x in a] + [_has_partner(y, a, exact, delta) for y in b])
     if isinstance(a, dict) and isinstance(b, dict):
-        if set(a) != set(b):
-            return None if any(isinstance(k, (str, float)) for k in list(a) + list(b)) else False
-        return tri_and(ref_equal(a[k], b[k], exact, delta) for k in a)
+        verdicts = [_has_partner(k, b, exact, delta) for k in a] + [_has_partner(k, a, exact, delta) for k in b]
+        keys = tri_and(verdicts)
+        if keys is not True:
+            return keys
+        out = []
+        for k in a:
+            partners = [k] if k in b else [k2 for k2 in b if ref_equal(k, k2, exact, delta) is not False]
+            if len(partners) != 1:
+                return None          # which value belongs to this key is not determined
+            out.append(ref_equal(a[k], b[partners[0]], exact, delta))
+        return tri_and(out)
+    if _dc.is_dataclass(a) and _dc.is_dataclass(b) and not isinstance(a, type) and not isinstance(b, type):
+        fa, fb = _dc.fields(a), _dc.fields(b)
+        if type(a).__name__ != type(b).__name__ or [f.name for f in fa] != [f.name for f in fb]:
+            return False
+        return tri_and(ref_equal(getattr(a, f.name), getattr(b, f.name), exact, delta) for f in fa)
     try:
         return bool(a == b)
     except Exception:
         return None
+
+
+def _has_partner(x, others, exact, delta):
+    """True / False / None: is some element of `others` equal to x under the reference."""
+    try:
+        if x in others:
+            return True
+    except TypeError:
+        pass
+    verdicts = [ref_equal(x, y, exact, delta) for y in others]
+    if any(v is True for v in verdicts):
+        return True
+    return None if any(v is None for v in verdicts) else False
 
 
 def operand_kind(src):
